@@ -7,6 +7,7 @@
  *   <id> ctx <max> <send01> <ptr01> <script r,r,..|-> <op> <args> ...
  *        ops: conv <type> | arm <hex> | armz <n> | reply <hex|null> | creply <code> <hex|null>
  *             defer | hreply <k> <hex|null> | ref | unref
+ *   <id> nrc <code> <text hex|null>  mpt_context_reply(NULL, code, "%s", text): no reply context
  *
  * The transport is the harness' own send callback: it logs the id bytes it is
  * shown (rd->val[0..len)), the flattened message and answers from the script
@@ -67,9 +68,11 @@ static int vh_nlive(void)
 /* write queue limit (linked with -Wl,--wrap=mpt_queue_prepare) */
 static size_t wq_limit = (size_t) -1;
 static const void *wq_queue;
+static int wq_fixed;   /* sin mode Q<n>: the queue has exactly n bytes and never grows */
 extern size_t __real_mpt_queue_prepare(MPT_STRUCT(queue) *, size_t);
 size_t __wrap_mpt_queue_prepare(MPT_STRUCT(queue) *q, size_t len)
 {
+	if (q == wq_queue && wq_fixed) return len > q->max - q->len ? 0 : q->max - q->len;
 	if (q == wq_queue && q->max + len > wq_limit) return 0;
 	return __real_mpt_queue_prepare(q, len);
 }
@@ -320,7 +323,10 @@ static void run_ctx(int ntok, char **tok)
  *   <id> sin <idlen> <mode> req <message-hex> <nrep> <rep1 hex|null> <rep2 hex|null> <code> ...
  *        mode 0 read-only, 1 bidirectional + buffered, 2 bidirectional with unbuffered writing (no write queue: every
  *        reply fails in mpt_stream_reply), L<n> = like 1 but the write queue may not grow beyond n bytes (mpt_queue_prepare
- *        is wrapped and refuses: what a failing realloc does) - the failure paths of mpt_stream_reply
+ *        is wrapped and refuses: what a failing realloc does) - the failure paths of mpt_stream_reply;
+ *        Q<n> = like 1, the write queue is given exactly n bytes (mpt_queue_resize) and every further growth is refused:
+ *        a reply is sent iff its COBS frame (marked id + message + delimiter) fits into n bytes, else mpt_stream_reply
+ *        rolls back (nothing of it may reach the wire, later replies must still work)
  *        further items:  rqd <message-hex> <rep hex|null> <code>   the handler first asks for a deferred handle, then replies
  *                        rq0 <message-hex>                         dispatch(NULL): the message is skipped
  *                        scv <in|fmt|meta|sock|bad>                convert() of the input
@@ -335,7 +341,10 @@ static size_t cobs_enc(const uint8_t *in, size_t n, uint8_t *out)
 	uint8_t code = 1;
 	while (ri < n) {
 		if (!in[ri]) { out[ci] = code; code = 1; ci = wi++; ri++; }
-		else { out[wi++] = in[ri++]; code++; }
+		else {
+			out[wi++] = in[ri++];
+			if (++code == 0xff) { out[ci] = code; code = 1; ci = wi++; }
+		}
 	}
 	out[ci] = code;
 	out[wi++] = 0;
@@ -354,13 +363,13 @@ static size_t cobs_dec(const uint8_t *in, size_t n, uint8_t *out)
 struct sin_handler {
 	int nrep, code, called, defer;
 	const char *rep[2];
-	char seen[1024];
+	char seen[4096];
 	char res[64];
 };
 static int sin_handle(void *arg, MPT_STRUCT(event) *ev)
 {
 	struct sin_handler *h = arg;
-	uint8_t buf[300];
+	uint8_t buf[1400];
 	size_t n = 0, i, o;
 	h->called = 1;
 	if (ev->msg) {
@@ -388,7 +397,7 @@ static int sin_handle(void *arg, MPT_STRUCT(event) *ev)
 }
 static void run_sin(int ntok, char **tok)
 {
-	int sv[2], t = 4, md = tok[3][0] == 'L' ? 1 : vh_int(tok[3]);
+	int sv[2], t = 4, md = (tok[3][0] == 'L' || tok[3][0] == 'Q') ? 1 : vh_int(tok[3]);
 	size_t idlen = vh_int(tok[2]);
 	MPT_STRUCT(socket) sock;
 	MPT_INTERFACE(input) *in;
@@ -403,10 +412,15 @@ static void run_sin(int ntok, char **tok)
 	if (!in) { vh_tok("?input"); return; }
 	srm = (void *) in;
 	if (tok[3][0] == 'L') { wq_limit = vh_int(tok[3] + 1); wq_queue = &srm->data._wd.data; }
+	if (tok[3][0] == 'Q') {
+		size_t cap = vh_int(tok[3] + 1);
+		if (cap && !mpt_queue_resize(&srm->data._wd.data, cap)) { vh_tok("?resize"); return; }
+		wq_fixed = 1; wq_queue = &srm->data._wd.data;
+	}
 	while (t < ntok) {
 		struct sin_handler h;
 		size_t n, fl;
-		uint8_t *msg, frame[700], wire[4096], dec[4096];
+		uint8_t *msg, frame[1400], wire[4096], dec[4096];
 		ssize_t got, tot = 0;
 		int r, first = 1, kind;
 		size_t pos, start;
@@ -455,11 +469,19 @@ static void run_sin(int ntok, char **tok)
 			h.code = vh_int(tok[t + 1]);
 			t += 2;
 		}
-		if (n > 250) { vh_tok("?toolong"); break; }
+		if (n > 1200) { vh_tok("?toolong"); break; }
 		fl = cobs_enc(msg, n, frame);
 		free(msg);
 		if (write(sv[1], frame, fl) != (ssize_t) fl) { vh_tok("?write"); break; }
-		in->_vptr->next(in, POLLIN);
+		/* the input reads 64 bytes at a time: next(POLLIN) while the descriptor has data (what the notifier would do) */
+		{
+			struct pollfd pf;
+			int rounds = 0;
+			do {
+				in->_vptr->next(in, POLLIN);
+				pf.fd = sv[0]; pf.events = POLLIN; pf.revents = 0;
+			} while (++rounds < 64 && poll(&pf, 1, 0) > 0 && (pf.revents & POLLIN));
+		}
 		r = in->_vptr->dispatch(in, kind == 2 ? 0 : sin_handle, &h);
 		mpt_stream_flush(&srm->data);
 		vh_tok("%d|%s|%s|", r, h.called ? h.seen : "-", h.res[0] ? h.res : "-");
@@ -492,9 +514,39 @@ static void run_sinx(int ntok, char **tok)
 	else { vh_tok("ok"); in->_vptr->meta.unref((void *) in); }
 	close(sv[1]);
 }
+/* mpt_context_reply() without reply context: nothing can be sent, the text goes to stderr
+ *   <id> nrc <code> <text hex|null>        token: i<ret>:<what appeared on descriptor 2, hex> */
+static void run_nrc(char **tok)
+{
+	int code = vh_int(tok[2]), r, save;
+	FILE *tf = tmpfile();
+	char out[2048];
+	size_t got;
+	if (!tf) { vh_tok("?tmpfile"); return; }
+	fflush(stderr);
+	save = dup(2);
+	dup2(fileno(tf), 2);
+	if (!strcmp(tok[3], "null")) r = mpt_context_reply(0, code, 0);
+	else {
+		size_t n; uint8_t *b = vh_unhex(tok[3], &n);
+		char *s = malloc(n + 1);
+		memcpy(s, b, n); s[n] = 0;
+		r = mpt_context_reply(0, code, "%s", s);
+		free(s); free(b);
+	}
+	fflush(stderr);
+	dup2(save, 2);
+	close(save);
+	rewind(tf);
+	got = fread(out, 1, sizeof(out), tf);
+	fclose(tf);
+	vh_tok("i%d:", r);
+	vh_hex(out, got);
+}
 static void run_case(int ntok, char **tok)
 {
 	if (ntok < 3) return;
+	if (!strcmp(tok[1], "nrc") && ntok >= 4) { run_nrc(tok); return; }
 	if (!strcmp(tok[1], "id2buf") && ntok >= 4) {
 		uint64_t id = strtoull(tok[2], 0, 16), out = 0xdeadbeefcafef00dULL;
 		size_t w = vh_int(tok[3]);
